@@ -593,7 +593,7 @@ def text_cases(chk, W, count):
         for _ in range(rng.randint(1, 6)):
             r = rng.random()
             if r < 0.1:
-                entries.append("".join(rng.choice(";#%|*") + rng.choice([" top", "comment", " コメント"]) + "\n" for _ in range(rng.randint(1, 3))))
+                entries.append("".join(rng.choice(";#%|*") + rng.choice([" top", "comment", " コメント", "", ""]) + "\n" for _ in range(rng.randint(1, 3))))
             elif r < 0.16:
                 entries.append("apply tag " + rng.choice(["foo", "key: value", "key:: 10 USD"]) + "\n")
             elif r < 0.2:
@@ -685,7 +685,7 @@ def tree_random_cases(chk, W, count):
         for _ in range(rng.randint(1, 4)):
             r = rng.random()
             if r < 0.12:
-                entries.append(["comment", enc(rng.choice(["a\nb\n", "one line", " x\r\ny\r\n", "tail\r", "日本\n語\n"]))])
+                entries.append(["comment", enc(rng.choice(["a\nb\n", "one line", " x\r\ny\r\n", "tail\r", "日本\n語\n", "\n", "a\n\nb\n", "\n\n"]))])
             elif r < 0.2:
                 entries.append(["applytag", enc("key"), opt(rng.choice([None, ["text", enc("v")], ["expr", enc("1 USD")]]))])
             elif r < 0.24:
